@@ -16,7 +16,9 @@
  *                 the whole stream must be what DTSTART/COUNT/UNTIL leave of the shifted
  *                 dates (see "oracle" below for what is left open)
  *   SHIFT specs: N (calendar days), NB, NB+, NB- for N in nlist, plus -0B and -0B-.
- *   options: nlist=all|quick  (all: -366..366; quick: -8..8, +-31, +-258..262, +-300, +-366), nocount=1
+ * mode=setpos   BYSETPOS together with SHIFT (MONTHLY and YEARLY rules with several candidates per period), see
+ *               shift_setpos(); options nmax=10 (largest |N|), ytill=2023
+ *   options: nlist=all|quick (all: -366..366; quick: -8..8, +-31, +-258..262, +-300, +-366), nocount=1
  *
  * oracle (no more than README + property text):
  *   SHIFT=N      image = date + N days.
@@ -979,6 +981,166 @@ shift_mstart(const struct spec_s *sp, int d, int dd)
 	}
 }
 
+/* family setpos: BYSETPOS together with SHIFT.  The rule's BY parts give several candidate dates per period (month or
+ * year), BYSETPOS selects among them, SHIFT moves what was selected ("moves every selected date").  DTSTART 2019-01-01,
+ * no limit, judged to the end of YTILL (2023).  The candidates of every period 2018-07 .. YTILL+1-06 (2018 .. YTILL+1)
+ * are computed here from weekday / day-of-month arithmetic, BYSETPOS picks from the ascending list (n-th, or n-th from
+ * the end; a position that does not exist selects nothing).
+ * Oracle, same shape as mstart/multi: every occurrence up to the end of YTILL lies on or after DTSTART and is an
+ * acceptable image of a selected date; a selected date on or after DTSTART all of whose acceptable images lie in
+ * DTSTART .. end of YTILL has one of them in the stream; strictly increasing.
+ * Left open: (1) a selected date before DTSTART whose image lies inside may or may not show; (2) a period in which the
+ * shift does not keep the candidates in strict order (a business-day shift with weekend candidates: Sat+1B and Sun+1B
+ * and possibly Mon+1B coincide) - there "the n-th of the set" can be read before or after the shift with different
+ * results, so EVERY candidate of such a period is accepted and none is demanded. */
+struct spfam_s {
+	const char *name;
+	const char *parts;	/* RRULE parts between FREQ and BYSETPOS */
+	int monthly;
+	unsigned wdmask;	/* bit 1..7 = Mon..Sun, 0 = any */
+	int nmd, md[4];		/* days of month, 0 = any */
+	unsigned monmask;	/* bit 1..12, 0 = any */
+};
+static const struct spfam_s spfam[] = {
+	{"m-weekdays", "BYDAY=MO,TU,WE,TH,FR", 1, 0x3e, 0, {0}, 0},
+	{"m-1+2+3", "BYMONTHDAY=1,2,3", 1, 0, 3, {1, 2, 3}, 0},
+	{"m-28..31", "BYMONTHDAY=28,29,30,31", 1, 0, 4, {28, 29, 30, 31}, 0},
+	{"m-1+15+31", "BYMONTHDAY=1,15,31", 1, 0, 3, {1, 15, 31}, 0},
+	{"m-weekend", "BYDAY=SA,SU", 1, 0xc0, 0, {0}, 0},
+	{"y-weekdays", "BYDAY=MO,TU,WE,TH,FR", 0, 0x3e, 0, {0}, 0},
+	{"y-jan-weekdays", "BYMONTH=1;BYDAY=MO,TU,WE,TH,FR", 0, 0x3e, 0, {0}, 1U << 1},
+	{"y-dec-weekdays", "BYMONTH=12;BYDAY=MO,TU,WE,TH,FR", 0, 0x3e, 0, {0}, 1U << 12},
+	{"y-year-ends", "BYMONTH=1,12;BYMONTHDAY=1,31", 0, 0, 2, {1, 31}, 1U << 1 | 1U << 12},
+};
+#define NSPFAM	((int)(sizeof(spfam) / sizeof(*spfam)))
+
+struct sppos_s {
+	const char *txt;
+	int n, p[2];
+};
+static const struct sppos_s sppos[] = {
+	{"1", 1, {1, 0}}, {"-1", 1, {-1, 0}}, {"2", 1, {2, 0}}, {"-2", 1, {-2, 0}}, {"1,-1", 2, {1, -1}},
+};
+#define NSPPOS	((int)(sizeof(sppos) / sizeof(*sppos)))
+
+/* ascending candidates of the period starting on day ZA and ending on day ZB */
+static int
+sp_cands(long *c, int max, const struct spfam_s *F, long za, long zb)
+{
+	int n = 0;
+	for (long z = za; z <= zb && n < max; z++) {
+		const struct cvl_ymd_s d = cvl_civil(z);
+		if (F->monmask && !(F->monmask >> d.m & 1U)) continue;
+		if (F->wdmask && !(F->wdmask >> cvl_wday(z) & 1U)) continue;
+		if (F->nmd) {
+			int ok = 0;
+			for (int i = 0; i < F->nmd; i++) ok |= F->md[i] == d.d;
+			if (!ok) continue;
+		}
+		c[n++] = z;
+	}
+	return n;
+}
+
+static void
+shift_setpos(const struct spec_s *sp, int f, int ip, int ytill)
+{
+	static long obs[900], cand[400];
+	static struct src_s src[2400];
+	const struct spfam_s *F = &spfam[f];
+	const struct sppos_s *P = &sppos[ip];
+	char lines[256], sig[200], b1[48], b2[32], b3[32];
+	bool ended;
+	const long z0 = cvl_days(2019, 1, 1), Z1 = cvl_days(ytill, 12, 31);
+	int ns = 0, no;
+	const char *ncl = nclass_m(sp);
+
+	/* sources: .cls 1 = selected, 2 = accepted only (period where the shift does not keep the order) */
+	for (int k = F->monthly ? 2018 * 12 + 6 : 2018 * 12; k < (ytill + 1) * 12 + (F->monthly ? 6 : 12); k += F->monthly ? 1 : 12) {
+		const int y = k / 12, m = k % 12 + 1;
+		const long za = F->monthly ? cvl_days(y, m, 1) : cvl_days(y, 1, 1);
+		const long zb = F->monthly ? cvl_days(y, m, cvl_ndim(y, m)) : cvl_days(y, 12, 31);
+		const int nc = sp_cands(cand, 400, F, za, zb);
+		bool ambig = false;
+		long prevmax = 0;
+
+		for (int i = 0; i < nc; i++) {
+			long img[2];
+			const int ni = images(img, sp, cand[i]);
+			const long lo = ni > 1 && img[1] < img[0] ? img[1] : img[0];
+			const long hi = ni > 1 && img[1] > img[0] ? img[1] : img[0];
+			if (i && lo <= prevmax) ambig = true;
+			prevmax = i && prevmax > hi ? prevmax : hi;
+		}
+		if (ambig) {
+			for (int i = 0; i < nc && ns < 2400; i++, ns++) {
+				src[ns].valid = true, src[ns].cls = 2, src[ns].z = cand[i];
+				src[ns].nimg = images(src[ns].img, sp, cand[i]);
+			}
+			continue;
+		}
+		for (int q = 0; q < P->n; q++) {
+			const int p = P->p[q], i = p > 0 ? p - 1 : nc + p;
+			bool dup = false;
+			if (i < 0 || i >= nc || ns >= 2400) continue;
+			for (int j = 0; j < ns; j++) dup |= src[j].z == cand[i];
+			if (dup) continue;
+			src[ns].valid = true, src[ns].cls = 1, src[ns].z = cand[i];
+			src[ns].nimg = images(src[ns].img, sp, cand[i]);
+			ns++;
+		}
+	}
+	snprintf(lines, sizeof(lines), "DTSTART;VALUE=DATE:20190101\nRRULE:FREQ=%s;%s;BYSETPOS=%s;SHIFT=%s\n", F->monthly ? "MONTHLY" : "YEARLY", F->parts, P->txt, sp->txt);
+	vd_desc("%s", lines);
+	for (char *q = vd_sh->desc; *q; q++) if (*q == '\n') *q = ' ';
+	no = run_stream(obs, 900, lines, Z1, &ended);
+	vd_sh->evals++;
+	if (no < 0) {
+		snprintf(sig, sizeof(sig), "setpos-no-stream/%s/%s/%s", F->monthly ? "monthly" : "yearly", fgroup(sp), ncl);
+		vd_viol(sig, "the parser gave no recurring task");
+		return;
+	}
+	if (nbad) {
+		snprintf(sig, sizeof(sig), "setpos-not-a-date/%s/%s/%s", F->monthly ? "monthly" : "yearly", fgroup(sp), ncl);
+		vd_viol(sig, "%d occurrences are not all-day dates of the calendar, first: %s", nbad, badstr(b1, sizeof(b1)));
+	}
+	for (int j = 0; j < no; j++) {
+		bool known = false;
+		if (obs[j] > Z1) continue;
+		if (obs[j] < z0) {
+			snprintf(sig, sizeof(sig), "setpos-before-dtstart/%s/%s/%s", F->monthly ? "monthly" : "yearly", fgroup(sp), ncl);
+			vd_viol(sig, "%s occurs before DTSTART", zstr(b1, sizeof(b1), obs[j]));
+			break;
+		}
+		for (int k = 0; k < ns && !known; k++) known = img_has(&src[k], obs[j]);
+		if (!known) {
+			snprintf(sig, sizeof(sig), "setpos-extra/%s/%s/%s", F->monthly ? "monthly" : "yearly", fgroup(sp), ncl);
+			vd_viol(sig, "%s occurs (occurrence %d) but is the image of no date selected by BYSETPOS=%s", zstr(b1, sizeof(b1), obs[j]), j + 1, P->txt);
+			break;
+		}
+	}
+	for (int k = 0; k < ns; k++) {
+		bool inwin = true, hit = false;
+		if (src[k].cls != 1 || src[k].z < z0) continue;
+		for (int q = 0; q < src[k].nimg; q++) inwin &= src[k].img[q] >= z0 && src[k].img[q] <= Z1;
+		if (!inwin) continue;
+		for (int j = 0; j < no && !hit; j++) hit = img_has(&src[k], obs[j]);
+		if (!hit) {
+			snprintf(sig, sizeof(sig), "setpos-missing/%s/%s/%s", F->monthly ? "monthly" : "yearly", fgroup(sp), ncl);
+			vd_viol(sig, "BYSETPOS=%s selects %s, which must become %s%s%s, which does not occur", P->txt, zstr(b1, sizeof(b1), src[k].z), zstr(b2, sizeof(b2), src[k].img[0]),
+				src[k].nimg > 1 ? " or " : "", src[k].nimg > 1 ? zstr(b3, sizeof(b3), src[k].img[1]) : "");
+			break;
+		}
+	}
+	for (int j = 1; j < no; j++) {
+		if (obs[j] <= obs[j - 1]) {
+			snprintf(sig, sizeof(sig), "setpos-order/%s/%s/%s", F->monthly ? "monthly" : "yearly", fgroup(sp), ncl);
+			vd_viol(sig, "occurrence %d (%s) is not after occurrence %d (%s)", j, zstr(b1, sizeof(b1), obs[j]), j - 1, zstr(b2, sizeof(b2), obs[j - 1]));
+			break;
+		}
+	}
+}
+
 static void
 enumerate(void)
 {
@@ -1080,6 +1242,28 @@ enumerate(void)
 				NONTRIVIAL();
 			}
 			if (vd_want_sample()) vd_sample("monthly from the start: BYMONTHDAY=1,2,15,28..31;SHIFT=%s from 2020-01-01/02/15/31, judged to 2021-06-30", sp[k].txt);
+		}
+	} else if (!strcmp(mode, "setpos")) {
+		static struct spec_s sp[3000];
+		const int nsp = mkspecs(sp, 3000, "all");
+		const int nmax = (int)vd_opt_l("nmax", 10);
+		const int ytill = (int)vd_opt_l("ytill", 2023);
+
+		for (int k = 0; k < nsp; k++) {
+			if (sp[k].n > nmax || sp[k].n < -nmax) continue;
+			/* the B+/B- suffixes are not given a meaning for N != 0, B covers them */
+			if (sp[k].n && (sp[k].form == F_BPLUS || sp[k].form == F_BMINUS)) continue;
+			for (int f = 0; f < NSPFAM; f++) {
+				if (!vd_next()) continue;
+				vd_shape("shift-setpos/%s/%s/%s", spfam[f].name, fgroup(&sp[k]), nclass_m(&sp[k]));
+				for (int ip = 0; ip < NSPPOS; ip++) {
+					shift_setpos(&sp[k], f, ip, ytill);
+				}
+				if (sp[k].n != 0 || sp[k].form != F_DAY) {
+					NONTRIVIAL();
+				}
+				if (vd_want_sample()) vd_sample("setpos: %s;BYSETPOS=1|-1|2|-2|1,-1;SHIFT=%s from 2019-01-01, judged to %d-12-31", spfam[f].parts, sp[k].txt, ytill);
+			}
 		}
 	} else if (!strcmp(mode, "multi")) {
 		static struct spec_s sp[3000];
